@@ -105,10 +105,10 @@ pub fn check(r: &ExecResult, unsubbed: &[u32], kept: &[u32], channeled: &[u32]) 
 pub fn scenarios(tier: Tier) -> Vec<Scenario> {
     let mut v = vec![];
     // who: which subscriber the unsubscriber thread releases (1 = direct A, 3 = channeled C, 0 none)
-    let mut add = |np: u32, k: u32, who: u32, twice: bool, with_chan: bool, race_stop: bool, bound: u32| {
+    let mut add_pol = |pol: Pol, np: u32, k: u32, who: u32, twice: bool, with_chan: bool, race_stop: bool, bound: u32| {
         // a third direct subscriber wherever there is no channeled one
         let three = !with_chan;
-        let mut prog = producers(Program::new(StoreSpec::new(1, 2, Pol::Block)), np, k, |_, id| Op::Dispatch(Act::new(id)));
+        let mut prog = producers(Program::new(StoreSpec::new(1, if pol == Pol::Block { 2 } else { 1 }, pol)), np, k, |_, id| Op::Dispatch(Act::new(id)));
         if who != 0 {
             let mut ops = vec![Op::Unsub(who)];
             if twice {
@@ -144,13 +144,17 @@ pub fn scenarios(tier: Tier) -> Vec<Scenario> {
         // with stop() racing the producers a rejected dispatch is fine; streams are still
         // compared against what was actually reduced
         v.push(scn(
-            format!("C09/P{}k{}who{}{}{}{}{}", np, k, who, if three { "+3rd" } else { "" }, if twice { "x2" } else { "" }, if with_chan { "+chan" } else { "" }, if race_stop { "race" } else { "" }),
+            format!("C09/{}P{}k{}who{}{}{}{}{}", if pol == Pol::Block { "" } else { pol.s() }, np, k, who, if three { "+3rd" } else { "" }, if twice { "x2" } else { "" }, if with_chan { "+chan" } else { "" }, if race_stop { "race" } else { "" }),
             prog,
             bound,
             opts_elide(),
             move |r, _| check(r, &unsubbed, &kept, &channeled),
         ));
     };
+    // shutdown of a store whose queue may be full when the shutdown marker is sent
+    add_pol(Pol::Latest, 1, 2, 0, false, true, true, 2);
+    add_pol(Pol::Oldest, 1, 2, 1, false, false, true, 2);
+    let mut add = |np: u32, k: u32, who: u32, twice: bool, with_chan: bool, race_stop: bool, bound: u32| add_pol(Pol::Block, np, k, who, twice, with_chan, race_stop, bound);
     match tier {
         Tier::Quick => {
             add(1, 2, 1, false, false, false, 2);
